@@ -186,20 +186,48 @@ def rule_r2(repo):
 
 
 def rule_r3(repo):
-    rr = RuleResult('C12.R3', 'the command line catches the root library error (no traceback); the scanner part is decided by the fold in R5')
+    """main() folded with the argument parser scripted and every command replaced by one that raises a library error: whatever
+    the dispatch looks like (if/elif chain, table of handlers) and however the handlers are grouped, no library error may escape."""
+    from sa.patheval import Interp, Obj, Raise, Stub, Top, FuncRef
+    rr = RuleResult('C12.R3', 'the command line reports every library error without a traceback (main() folded with failing commands)')
     main = repo.func('__init__', 'main')
-    cli_ok = False
-    for n in ast.walk(main.node):
-        if isinstance(n, ast.Try):
-            if any('command_decode' in norm(s) for s in n.body):
-                for h in n.handlers:
-                    ts = h.type.elts if isinstance(h.type, ast.Tuple) else ([h.type] if h.type is not None else [])
-                    if any(norm(x) in (ROOT, 'Exception') for x in ts) or h.type is None:
-                        if not any(isinstance(x, ast.Raise) for s in h.body for x in ast.walk(s)):
-                            cli_ok = True
-    rr.instance('main(): except %s around the command dispatch' % ROOT)
-    if not cli_ok:
-        rr.fail('main:handler', main.where, 'main() does not catch %s around the command dispatch: the CLI would print a traceback' % ROOT)
+    commands = sorted(n for n in repo.module('commands').funcs if n.startswith('command_'))
+    if len(commands) < 5:
+        raise AnalysisError('only %d command_* functions found in commands.py' % len(commands))
+    errors = sorted(c for c in repo.module('errors').classes if is_lib_error(repo, c))
+    if ROOT not in errors:
+        raise AnalysisError('%s not found in errors.py' % ROOT)
+
+    class I(Interp):
+        def on_call(self, text, callee, args, kwargs, node, frame):
+            if text.endswith('ArgumentParser'):
+                def parse_args(interp, a, kw, node, frame):
+                    return self.ns
+                return Stub('argument parser', {'parse_args': parse_args}, chain=True)
+            if text.startswith('logging.') or text.startswith('log.') or text.startswith('LOGGER.'):
+                return None
+            if isinstance(callee, FuncRef) and callee.fi.name.startswith('command_') and callee.fi.module.relpath.endswith('commands.py'):
+                self.event('command', callee.fi.name)
+                raise Raise(self.exc, node, self.where(node, frame), Obj(self.exc, {'args': ['scripted'], 'message': 'scripted'}))
+            return self.NOT_HANDLED
+
+    n = 0
+    for cmd in commands:
+        for exc in errors:
+            it = I(repo, None)
+            it.exc = exc
+            it.ns = Obj('Namespace', {'command': cmd[len('command_'):], 'info': False, 'debug': False})
+            res = it.run_function(main, lambda: {})
+            n += 1
+            for r in res:
+                called = [e[1] for e in r.events if e[0] == 'command']
+                if called != [cmd]:
+                    rr.fail('main:dispatch', main.where, 'the command %r runs %s (expected %s exactly once)' % (cmd[len('command_'):], called or 'nothing', cmd))
+                elif not r.ok:
+                    rr.fail('main:handler', main.where, 'a %s raised by %s escapes main() as %s: the command line would print a traceback instead of reporting the '
+                            'error' % (exc, cmd, r.exc.cls), witness={'command': cmd, 'error': exc})
+        rr.instance('%s raising each of %s' % (cmd, ', '.join(errors)))
+    rr.extra = {'cases': n}
     rr.require_floor(1)
     return rr
 
